@@ -1,5 +1,5 @@
 """C11 — no safe operation yields an invalid hash object (the structural clauses; widest check)."""
-from ..rules import rle, validate, tail, fields, eqord, vis, panic, parser, typestate, witness, normal, convert, casts
+from ..rules import rle, validate, tail, fields, eqord, vis, panic, parser, typestate, witness, normal, convert, casts, summary
 
 EXPL = ("Decides: SA-VIS: the representation of all hash/target/generator types is private, no exported safe function hands out &mut "
         "into it, accumulating initialisers/views/encoders/_internal functions are not exported, exported *_unchecked are unsafe - so "
@@ -40,6 +40,7 @@ def run(ctx):
         ctx.guard("C11", "narrow", lambda: convert.narrowing(ctx, prog))
         ctx.guard("C11", "panic-pure", lambda: validate.panic_purity(ctx, prog))
         ctx.guard("C11", "rle-validator", lambda: rle.validator_refusals(ctx, prog))
+        ctx.guard("C11", "summaries", lambda: summary.check(ctx, prog, 'internals::(hash|hash_dual|compare)::', floor=60))
         ctx.guard("C11", "traits", lambda: vis.trait_census(ctx, prog, scope=None))
         ctx.guard("C11", "casts", lambda: casts.census(ctx, prog, scope=None, floor=15))
     if ctx.tier == "thorough":
